@@ -14,6 +14,39 @@ func c11Gen(g *G) {
 	g.Emit("c11.run o g0;w1;r0/555;w2;a0", "single")
 	g.Emit("c11.run o,o g0+1;w2;r0/555;w3;r1/777;w4;a0;a1", "two-rotations")
 	g.Emit("c11.run o,o,o g0+1+2;w3;a1;r0/601;w4;r0/602;w5;r0/603;w6;n9;a0;a2", "thrice-same-request")
+	// what a real server does when the salt changes: every request in flight is rejected, each with its own
+	// notification, all carrying the same new salt — back to back, and grouped in a container
+	g.Emit("c11.run o,o g0+1;w2;r0/2000;r1/2000;w4;a0;a1", "burst-same-salt")
+	g.Emit("c11.run o,vl,b g0+1+2;w3;c(r0/2000,r1/2000,r2/2000);w6;a2;a0;a1", "burst-same-salt")
+	g.Emit("c11.run o,o ycq:1500:2;g0+1;w2;r1/2000;r0/2000;w4;a1;a0", "burst-same-salt")
+	nb := g.N(20, 400)
+	for i := 0; i < nb; i++ {
+		k := 2 + r.Intn(5)
+		kinds := rsKinds(r, k, []string{"o", "b", "vl", "e"})
+		all := make([]int, k)
+		for j := range all {
+			all[j] = j
+		}
+		plan := []string{"g" + rsJoinInts("", all, "+"), fmt.Sprintf("w%d", k)}
+		seen, salt := k, 3000
+		for round := 0; round < 1+r.Intn(2); round++ {
+			salt += 1 + r.Intn(90)
+			sub := rsPerm(r, k)[:2+r.Intn(k-1)]
+			var items []string
+			for _, c := range sub {
+				items = append(items, fmt.Sprintf("r%d/%d", c, salt))
+			}
+			if r.Bool() {
+				plan = append(plan, "c("+strings.Join(items, ",")+")")
+			} else {
+				plan = append(plan, items...)
+			}
+			seen += len(sub)
+			plan = append(plan, fmt.Sprintf("w%d", seen))
+		}
+		plan = append(plan, rsAnswerPlan(r, rsPerm(r, k), []string{"p"})...)
+		g.Emit(fmt.Sprintf("c11.run %s %s", strings.Join(kinds, ","), strings.Join(plan, ";")), "burst-same-salt-random")
+	}
 	n := g.N(60, 1500)
 	for i := 0; i < n; i++ {
 		k := 1 + r.Intn(g.N(6, 12))
@@ -67,5 +100,5 @@ func c11Gen(g *G) {
 }
 
 func init() {
-	register(&Prop{Name: "c11", Gen: c11Gen, Exec: rsExec("c11"), Judge: rsJudge("c11")})
+	register(&Prop{Name: "c11", Gen: c11Gen, Exec: rsExec("c11"), Judge: rsJudge("c11"), Teardown: rsTeardown})
 }
